@@ -82,11 +82,13 @@ SCALARS = {
     "datetime": datetime.datetime(2020, 2, 29, 23, 59, 59),
     "timedelta": datetime.timedelta(days=1),
     "bytes": b"x",
+    "bytes3": b"xyz",                # longer than the one-character width of an empty vector of an unsized bytes / string type
     "np.int64": np.int64(1),
     "np.float64": np.float64(1.5),
     "np.float32": np.float32(1.5),   # not an instance of float (np.float64 is)
     "np.bool": np.bool_(True),
     "np.str": np.str_("a"),
+    "np.str3": np.str_("abc"),
     "np.dt64": np.datetime64("2020-02-29"),
     "np.dt64M": np.datetime64("2020-02", "M"),   # a calendar unit (months are not a fixed number of microseconds)
     "np.NaT": np.datetime64("NaT"),
@@ -100,7 +102,7 @@ NAMES = list(SCALARS)
 MISSING = {"None", "nan", "npnan"}
 FAMILY = {
     "True": "bool", "1": "int", "big": "int", "i24": "int", "1.5": "float", "inf": "float", "complex": "complex", "a": "str", "empty": "str", "sNaT": "str", "snan": "str", "negzero": "float", "long1": "str", "long2": "str",
-    "date": "date", "datetime": "datetime", "timedelta": "timedelta", "bytes": "bytes",
+    "date": "date", "datetime": "datetime", "timedelta": "timedelta", "bytes": "bytes", "bytes3": "bytes", "np.str3": "np.str",
     "np.int64": "np.int", "np.float64": "np.float", "np.float32": "np.float32", "np.bool": "np.bool", "np.str": "np.str",
     "np.dt64": "np.dt64", "np.dt64M": "np.dt64", "np.NaT": "np.dt64", "np.td64": "np.td64", "np.td64ns": "np.td64", "dict": "object", "inst": "object", "aloof": "object",
 }
@@ -114,6 +116,9 @@ EXPLICIT = {
     "datetime": ["datetime64[us]", object],
     "np.int": [int, float],
     "np.float": [float],
+    # unsized flexible types: the width comes from the values, not from an empty prototype (seeded C10-r12-1; fix in /repo)
+    "bytes": [bytes, "S"],
+    "np.str": ["U"],
 }
 
 
@@ -139,11 +144,11 @@ def flagged(v):
 
 
 def dtype_arg(d):
-    return {int: "int", float: "float", bool: "bool", str: "str", object: "object"}.get(d, d)
+    return {int: "int", float: "float", bool: "bool", str: "str", object: "object", bytes: "bytes"}.get(d, d)
 
 
 def undo_dtype(s):
-    return {"int": int, "float": float, "bool": bool, "str": str, "object": object}.get(s, s)
+    return {"int": int, "float": float, "bool": bool, "str": str, "object": object, "bytes": bytes}.get(s, s)
 
 
 def expected_homogeneous(fam, has_missing, dtype):
@@ -191,6 +196,10 @@ def expected_homogeneous(fam, has_missing, dtype):
         return ("string", "''")
     if dtype is object:
         return ("object", "None")
+    if dtype is bytes or dtype == "S":
+        return ("object", "None") if has_missing else (None, None)
+    if dtype == "U":
+        return ("anystring", "''")
     return (dtype, "NaT")
 
 
